@@ -32,8 +32,17 @@ def plan(tier, seed):
                 K = int(pick([2, 3])); D = int(rng.integers(2, 5))
             lead = [pick([1, 3])] if kind in models.INTEGRATION else (pick([[], [3], [2, 2]]) if kind != 'cbmm' else pick([[], [2]]))
             N = int(rng.integers(3 * K + D, 8 * K + D + 8))
+            if r % 4 == 1 and kind != 'cbmm':
+                # shape coincidences: a leading axis (or the frame axis) as long as the class axis
+                if kind in models.INTEGRATION:
+                    lead = [K] if r % 8 == 1 else lead
+                    N = K if r % 8 == 5 else N
+                else:
+                    lead = [K]
             o = scen.sample_opts(rng, kind, lead)
             o.pop('aligner', None)
+            if kind in models.INTEGRATION and N == K:
+                o['wca'] = [-3]
             if 'inline_permutation_alignment' in o:
                 o['inline_permutation_alignment'] = False
             if o.get('saliency') == 'zeros':
